@@ -498,9 +498,11 @@ class _Flip:
         return da.flip(a[0], s["axis"])
 
 
-@op("getitem_dask0d", "index")
+@op("getitem_dask0d", "dask_index")
 class _GetitemDask0d:
-    """x[k] with k a lazily computed 0-d integer array (the argmax of another variable)."""
+    """x[k] with k a lazily computed 0-d integer array (the argmax of another variable).  Own family, weight 0
+    by default: indexing with dask arrays is C12's subject (its defects are listed there); C29 enables the
+    family to audit WHEN such an index is computed."""
 
     @staticmethod
     def gen(D_, vals):
@@ -1447,6 +1449,7 @@ FAMILY_WEIGHTS = {
     "window": 2,
     "map_blocks": 2,
     "linalg": 3,
+    "dask_index": 0,
 }
 
 
